@@ -86,6 +86,17 @@ type State struct {
 	msyms     map[string][]msymRec // pure-method symbols declared so far, per method
 	calls     []CallRec // dynamic (interface / function-value) calls made so far on this path
 	callsLost bool      // a loop was entered: the call log is no longer exact
+	inl       *inlFrame // innermost helper being executed in place (inline.go)
+}
+
+// inlining: g is being executed in place on this path (no recursive inlining)
+func (st *State) inlining(g *ssa.Function) bool {
+	for fr := st.inl; fr != nil; fr = fr.parent {
+		if fr.fn == g {
+			return true
+		}
+	}
+	return false
 }
 
 type msymRec struct {
@@ -102,7 +113,7 @@ type CallRec struct {
 }
 
 func (st *State) clone() *State {
-	n := &State{ex: st.ex, sc: st.sc.clone(), alloc: st.alloc, alloc0: st.alloc0, dead: st.dead, nobl: st.nobl}
+	n := &State{ex: st.ex, sc: st.sc.clone(), alloc: st.alloc, alloc0: st.alloc0, dead: st.dead, nobl: st.nobl, inl: st.inl}
 	n.vals = make(map[ssa.Value]Term, len(st.vals))
 	for k, v := range st.vals {
 		n.vals[k] = v
